@@ -1,4 +1,5 @@
 import enum
+import json
 from collections.abc import Callable, Mapping
 from dataclasses import dataclass, fields
 from typing import Annotated, Any, ClassVar, Self, TypeVar, dataclass_transform, get_args, get_origin, get_type_hints
@@ -41,14 +42,17 @@ def _convert_field(field_type: Any, raw):
             return field_type(raw)
         if field_type is bool:
             return bool(raw)
+    if (field_type is tuple or get_origin(field_type) is tuple) and isinstance(raw, list):
+        return tuple(raw)
     return raw
 
 
 def static_to_raw(value: Any) -> Any:
     """Converts a static field value to its JSON-serializable representation."""
     if isinstance(value, enum.Enum):
-        return value.value
-    return value
+        value = value.value
+    # the representation a saved and loaded log has (a tuple is a list there)
+    return json.loads(json.dumps(value))
 
 
 class Event:
